@@ -209,10 +209,13 @@ func (cp *FreeList) ToGC() (string, error) {
 		return "", err
 	}
 
-	cp.file, err = os.OpenFile(fileName, os.O_RDWR|os.O_APPEND|os.O_CREATE, 0o644)
+	file, err := os.OpenFile(fileName, os.O_RDWR|os.O_APPEND|os.O_CREATE, 0o644)
 	if err != nil {
+		// Keep the previous (closed) handle so that later calls fail with an
+		// error instead of dereferencing a nil file.
 		return "", err
 	}
+	cp.file = file
 	cp.writer.Reset(cp.file)
 
 	return workFilePath, nil
